@@ -4,7 +4,15 @@
 //! machine alone on fresh objects. Optionally every machine lives on its own real thread
 //! and a baton decides who runs (real threads, simulator-chosen schedule).
 use crate::case::Violation;
+// the two service entry points are internal names of the driver: used when they exist with the
+// signatures known to this harness (build.rs looks), otherwise the stub loop skips the services
+// on both sides of the comparison
+#[cfg(driver_int_fns)]
 use crate::driver::interrupts::{int_13, int_21};
+#[cfg(not(driver_int_fns))]
+fn int_13(_vm: &VM, _ah: u8) {}
+#[cfg(not(driver_int_fns))]
+fn int_21(_vm: &mut VM, _ah: u8) {}
 use crate::driver::print::PrintParser;
 use crate::driver::sim_io::{self, Caller, Console};
 use crate::history::{MB, R_AX};
